@@ -19,7 +19,7 @@ sys.path.insert(0, os.path.join(V.VERIF, "translator"))
 import c12_esc as TE  # noqa
 
 ENCS = ["utf8", "latin1", "ascii", "win1252", "utf16"]       # modelled (intrinsic) transcoders
-ENCS_DOC_ONLY = ["utf16le", "utf16be", "ibm1140", "koi8r"]   # document-level oracle only (koi8r = ICU converter)
+ENCS_DOC_ONLY = ["utf16le", "utf16be", "ibm1140"]   # document-level oracle only (intrinsic, not modelled)
 PYCODEC = {"utf8": "utf-8", "latin1": "latin-1", "ascii": "ascii", "win1252": "cp1252", "utf16": "utf-16-le"}
 
 
@@ -150,10 +150,10 @@ def gen_fmt_cases(ctx):
         for mode in range(4):
             for ver in ("10", "11"):
                 for unrep in (1, 0):
-                    # quick tier, in full: XML 1.0 Attr/CharEscapes for every encoding, all four modes and XML 1.1
+                    # quick tier, in full: XML 1.0 Attr/CharEscapes for every encoding, XML 1.1
                     # Attr/CharEscapes for UTF-8, UnRep_Fail + CharEscapes for the three narrow encodings; below
                     # U+3000 (where mode, version and the single-byte tables matter): every other UnRep_CharRef combination
-                    full = thorough or (unrep == 1 and ver == "10" and (mode in (2, 3) or enc == "utf8")) or \
+                    full = thorough or (unrep == 1 and ver == "10" and mode in (2, 3)) or \
                         (unrep == 1 and ver == "11" and enc == "utf8" and mode in (2, 3)) or \
                         (unrep == 0 and mode == 3 and ver == "10" and enc in ("latin1", "ascii", "win1252"))
                     part = unrep == 1
@@ -172,7 +172,7 @@ def gen_fmt_cases(ctx):
             for tail in ([], [0x62], [0x3C], [0xDC00], [0xD800, 0xDC00]):
                 cases.append(("lone", "fmt %s 3 1 10 %s" % (enc, H([0x61, u] + tail))))
     # random strings
-    for _ in range(60000 if thorough else 9000):
+    for _ in range(60000 if thorough else 7000):
         enc = rng.choice(ENCS)
         mode = rng.choice([0, 1, 2, 2, 3, 3])
         unrep = 1 if rng.random() < 0.8 else 0
@@ -215,6 +215,7 @@ class Tree:
         self.comments = []
         self.pis = []
         self.nsmissing = False
+        self.f50 = False
         self.nodes = 0
 
     def text(self, what):
@@ -245,13 +246,18 @@ class Tree:
                     attrs.append((HS("http://www.w3.org/2000/xmlns/"), HS("xmlns:" + key if key else "xmlns"), HS(u)))
                 else:
                     self.nsmissing = True        # the serializer has to supply the declaration
+                    if key == "" and scope.get("_outer") == u:
+                        self.f50 = True          # default namespace un-declared above, outer one equal: finding F50
                 scope[key] = u
+            if key == "":
+                scope["_outer"] = None
         elif self.ns and scope.get(""):
             # an element in no namespace under a default namespace needs xmlns="" (fix-up)
             if rng.random() < 0.5:
                 attrs.append((HS("http://www.w3.org/2000/xmlns/"), HS("xmlns"), "-"))
             else:
                 self.nsmissing = True
+            scope["_outer"] = scope[""]
             scope[""] = None
         self.names.append(qn)
         seen = set()
@@ -428,6 +434,9 @@ WITNESS = {
     "F45": "doc latin1 x1s1 10 D 1 " + E("r", [("kΩ", "v")], []),
     "F47": "doc utf8 x1s1 10 D 1 " + E("r", [], ["C " + HS("a\rb"), "M " + HS("c\rd")]),
     "F48": "doc utf8 x1s1 11 D 1 " + E("r", [("k", "a\x01")], ["T " + HS("b\x86c")]),
+    "F49": "doc koi8r x1s1 10 D 1 " + E("r", [], ["T " + HS("a\U0001F600b")]),
+    "F50": "doc utf8 x1s1n1 10 D 1 E %s %s 1 %s %s %s 1 E - %s 0 1 E %s %s 0 0" % (
+        HS("urn:b"), HS("r"), HS("http://www.w3.org/2000/xmlns/"), HS("xmlns"), HS("urn:b"), HS("x"), HS("urn:b"), HS("y")),
     "F46": "doc win1252 x1s1 10 D 1 " + E("r", [], ["T " + HS("a\uFF1Cb\uFF1E")]),
     "F44": "fmt utf8 3 1 10 " + H([0x61, 0xD800]),
 }
@@ -595,6 +604,20 @@ def run(ctx):
                        "allows (witness: attribute 'a U+0001', text 'b U+0086 c'; a document parsed from &#x1; cannot "
                        "be written back)",
                        {"request": WITNESS["F48"], "impl": W["F48"][:800], "what": "XML 1.1 RestrictedChar rejected"})
+    a = parse_doc_answer(W["F49"])
+    known_or_violation("F49", a.get("ser") == "ok" and a.get("reparse") != "ok",
+                       "with an ICU-provided output encoding (KOI8-R) a supplementary character is written as a "
+                       "reference to its low surrogate alone (&#xDE00;): ill-formed output, no error (ICU's "
+                       "canTranscodeTo is asked about single UTF-16 units); ICU encodings are therefore excluded from "
+                       "the generated document configurations",
+                       {"request": WITNESS["F49"], "impl": W["F49"][:800], "what": "lone surrogate reference (ICU encoding)"})
+    a = parse_doc_answer(W["F50"])
+    known_or_violation("F50", a.get("ser") == "ok" and a.get("reparse") == "ok" and a.get("eq") == "0",
+                       "namespace fix-up: the xmlns=\"\" that the serializer supplies for an unprefixed element in no "
+                       "namespace is recorded with a null URI, which isNamespaceBindingActive skips; an unprefixed "
+                       "descendant in the outer default namespace is then written without its declaration and "
+                       "re-parses into no namespace (witness: r{urn:b} > x{} > y{urn:b}, only r declared)",
+                       {"request": WITNESS["F50"], "impl": W["F50"][:1200], "what": "needed xmlns declaration not supplied"})
     a = parse_doc_answer(W["F46"])
     known_or_violation("F46", a.get("ser") == "ok" and (a.get("reparse") != "ok" or a.get("eq") == "0"),
                        "the Windows-1252 / IBM037 / IBM1047 / IBM1140 to-tables contain best-fit entries (U+FF01..U+FF5E "
@@ -859,10 +882,16 @@ def run(ctx):
             allow = ["1"]
             if split_needed:
                 allow.append("merged")
-            if tr.nsmissing:
+            if tr.ns:
+                # namespace fix-up may add declarations (needed ones when the tree lacks them; the implementation also
+                # repeats xmlns="" on descendants of an unprefixed element in no namespace): equality is then required
+                # up to xmlns attributes, with every element/attribute keeping its (namespace URI, name)
                 allow += ["nsdecl"] + (["merged+nsdecl"] if split_needed else [])
             if doc_good(a, tuple(allow)):
                 stats["eq" if a["eq"] == "1" else "eq-" + a["eq"].replace("merged+", "")] += 1
+            elif tr.f50 and ctx.find_known("F50") and a.get("ser") == "ok" and a.get("reparse") == "ok":
+                stats["known-class"] += 1
+                known_hits["F50"] = known_hits.get("F50", 0) + 1
             else:
                 violation("spec", {"request": req[:6000], "impl": ans[:3000], "allowed_eq": allow, "expect": "roundtrip",
                                    "what": "serialisable tree does not survive serialise/re-parse/serialise"})
